@@ -327,6 +327,13 @@ def run_kind(res: Result, kind: T.Kind, tier: str) -> None:
                 qv = None
             for src, rb in replies_for(kq, qb, qv, tier, rich=(idx == 0)):
                 judge(res, req, qb, mode, kind.name, rb, src)
+            # genuine replies to OTHER requests of the same kind (a stale reply after the parameters changed): judged by the table
+            for j, other in enumerate(chosen):
+                if j == idx:
+                    continue
+                for rb in genuine_replies(kind, other, 2):
+                    res.count("replies_to_other_requests_of_the_kind")
+                    judge(res, req, qb, mode, kind.name, rb, "other-request-of-same-kind")
         if idx == 0:
             g = genuine_replies(kind, vals, 1)
             res.sample({"kind": kind.name, "request": ref.hex()[:40], "genuine_reply": g[0].hex()[:40] if g else None}, cap=1)
